@@ -46,6 +46,50 @@ Definition as_i64 (w : N) (signed : bool) (u : N) : Z :=
   then (if u <? pow256 w / 2 then Z.of_N u else (Z.of_N u - Z.of_N (pow256 w))%Z)
   else Z.of_N u.
 
+(* ---------- f32 <-> f64 on bit patterns (`v as f64` is exact, `f as f32` rounds to nearest even) *)
+(* f32 bit pattern -> f64 bit pattern of the same value (`v as f64`, exact) *)
+Definition f32_to_f64 (u : N) : N :=
+  let s := N.shiftl (N.shiftr u 31) 63 in
+  let e := N.land (N.shiftr u 23) 255 in
+  let m := N.land u 8388607 in
+  if e =? 255 then N.lor s (N.lor 0x7FF0000000000000 (N.shiftl m 29))
+  else if e =? 0 then
+    if m =? 0 then s
+    else
+      let k := N.log2 m in                                   (* m = 2^k + rest, k <= 22 *)
+      N.lor s (N.lor (N.shiftl (k + 874) 52)                 (* k - 149 + 1023 *)
+                     (N.shiftl (m - N.shiftl 1 k) (52 - k)))
+  else N.lor s (N.lor (N.shiftl (e + 896) 52) (N.shiftl m 29)).   (* e - 127 + 1023 *)
+
+(* round-to-nearest-even right shift *)
+Definition rne_shr (x sh : N) : N :=
+  if sh =? 0 then x else
+  let q := N.shiftr x sh in
+  let r := x - N.shiftl q sh in
+  let half := N.shiftl 1 (sh - 1) in
+  if (half <? r) || ((r =? half) && N.odd q) then q + 1 else q.
+
+(* f64 bit pattern -> f32 bit pattern (`f as f32`, IEEE round to nearest even) *)
+Definition f64_to_f32 (b : N) : N :=
+  let s := N.shiftl (N.shiftr b 63) 31 in
+  let e := N.land (N.shiftr b 52) 2047 in
+  let m := N.land b 0xFFFFFFFFFFFFF in
+  if e =? 2047 then
+    if m =? 0 then N.lor s 0x7F800000
+    else N.lor s (N.lor 0x7FC00000 (N.shiftr m 29))           (* quiet NaN, payload truncated *)
+  else if e =? 0 then s                                       (* zero / f64 subnormal: far below f32's range *)
+  else
+    let M := m + 4503599627370496 in                          (* 1.m as a 53-bit integer *)
+    if 897 <=? e then                                         (* unbiased exponent >= -126: normal candidate *)
+      let q := rne_shr M 29 in                                (* 24 bits, may carry to 2^24 *)
+      let e32 := if q =? 16777216 then e - 896 + 1 else e - 896 in
+      let q := if q =? 16777216 then 8388608 else q in
+      if 255 <=? e32 then N.lor s 0x7F800000
+      else N.lor s (N.lor (N.shiftl e32 23) (q - 8388608))
+    else
+      let sh := 29 + (897 - e) in                             (* subnormal result *)
+      if 55 <=? sh then s else N.lor s (rne_shr M sh).
+
 Definition slice (d : buf) (off len : N) : buf := firstn (N.to_nat len) (skipn (N.to_nat off) d).
 Definition splice (d : buf) (off : N) (bs : list byte) : buf :=
   firstn (N.to_nat off) d ++ bs ++ skipn (N.to_nat off + length bs) d.
@@ -121,14 +165,15 @@ Definition b_step (s : bstate) (o : bop) : bstate * bres :=
       | None => (s, BErr)
       end
   | BRead w kind be h off =>
-      if negb (reader_known w kind be) || ((kind =? 2) && negb (w =? 8)) then (s, BErr) else   (* f32: not modelled *)
+      if negb (reader_known w kind be) then (s, BErr) else
       if (h <? 0)%Z then (s, BErr) else if (off <? 0)%Z then (s, BErr) else
       match get_buf s (Z.to_N h) with
       | None => (s, BErr)
       | Some d =>
           if in_bounds w (Z.to_N off) (N.of_nat (length d)) then
             let u := dec be (slice d (Z.to_N off) w) in
-            (s, if kind =? 2 then BOkWord (v_float u)                       (* Value::float(f64::from_bits) *)
+            (s, if kind =? 2
+                then BOkWord (v_float (if w =? 8 then u else f32_to_f64 u))     (* Value::float(f64::from_bits(..)) / (f32 as f64) *)
                 else BOkWord (v_int (as_i64 w (kind =? 1) u)))              (* Value::int(v as i64) *)
           else (s, BErr)
       end
@@ -141,8 +186,9 @@ Definition b_step (s : bstate) (o : bop) : bstate * bres :=
           write_at s h off (enc (N.to_nat w) be (to_unsigned w v))
       end
   | BWriteF w be h off bits =>
-      if negb (fwriter_known w be && (w =? 8)) then (s, BErr)   (* f32: conversion not modelled *)
-      else write_at s h off (enc 8 be bits)
+      if negb (fwriter_known w be) then (s, BErr)
+      else if w =? 8 then write_at s h off (enc 8 be bits)
+      else write_at s h off (enc 4 be (f64_to_f32 bits))          (* f as f32 *)
   | BCopy sh so dh doff len =>
       if (sh <? 0)%Z then (s, BErr) else if (so <? 0)%Z then (s, BErr) else
       if (dh <? 0)%Z then (s, BErr) else if (doff <? 0)%Z then (s, BErr) else
